@@ -626,6 +626,16 @@ func ErrOf(call ssa.Value) func(ssa.Value) bool {
 				}
 			case *ssa.UnOp:
 				if x.Op == token.MUL {
+					if a, ok := x.X.(*ssa.Alloc); ok {
+						// flow-sensitive: only the stores that reach this load
+						for _, st := range ReachingStores(x) {
+							if rec(st.Val) {
+								return true
+							}
+						}
+						_ = a
+						return false
+					}
 					if c := Cell(x.X); c != nil {
 						for _, st := range CellStores(c) {
 							if rec(st.Val) {
